@@ -107,7 +107,13 @@ func drawNCase(t *rapid.T, o nOpts) sim.NCase {
 			c.Steps = append(c.Steps, sim.NStep{K: "cand", Next: true, Kind: rapid.SampledFrom(o.Kinds).Draw(t, "kind"), From: rapid.IntRange(0, 8).Draw(t, "from"),
 				A: rapid.IntRange(0, 15).Draw(t, "a"), B: rapid.IntRange(0, 63).Draw(t, "b"), Muts: drawMutations(t, o)})
 		}
-		c.Steps = append(c.Steps, sim.NStep{K: "round"})
+		if rapid.IntRange(0, 2).Draw(t, "next-then-skip") == 0 {
+			// ... or the node is synced PAST that height: whatever is cached for the skipped height must not reach any term
+			c.Cfg.MaxHeight = 4
+			c.Steps = append(c.Steps, sim.NStep{K: "sync", A: rapid.IntRange(1, 2).Draw(t, "skip")})
+		} else {
+			c.Steps = append(c.Steps, sim.NStep{K: "round"})
+		}
 	}
 	for i := rapid.IntRange(1, o.MaxCands).Draw(t, "ncand"); i > 0; i-- {
 		c.Steps = append(c.Steps, sim.NStep{K: "cand", Kind: rapid.SampledFrom(o.Kinds).Draw(t, "kind"), From: rapid.IntRange(0, 8).Draw(t, "from"),
